@@ -232,6 +232,17 @@ impl Session {
         n
     }
 
+    /// `quit` (possibly in the middle of a search), join, and count the bestmove messages that were sent
+    pub fn quit_collect(mut self, n_best: &mut usize) -> Result<(), String> {
+        let r = self.quit_inner();
+        while let Ok(m) = self.rx.try_recv() {
+            if matches!(m, UciTxCommand::BestMove { .. }) {
+                *n_best += 1;
+            }
+        }
+        r
+    }
+
     /// `quit` and join; Err if the search thread had panicked
     pub fn quit(mut self) -> Result<(), String> {
         self.quit_inner()
